@@ -115,12 +115,14 @@ theorem error_carries_no_data (P : Prims) (side : Side) (ak keyId c : Bytes) (e 
 
 /-- Source facts: every `return` with an error in DecryptFromBuffer / Decrypt / decryptMessage
 returns a nil result; the key-id and msg_key comparisons are present; the msg_key is recomputed with
-`side := c.encryptSide.DecryptSide()`, which flips the side. -/
+`side := c.encryptSide.DecryptSide()`, which flips the side; the copying decoders size their
+slices to exactly the incoming bytes (a reused struct keeps no stale tail). -/
 theorem rejection_facts :
     Facts.C05.errorReturnsNil = true ∧ Facts.C05.checksKeyID = true ∧ Facts.C05.checksMsgKey = true ∧
     Facts.C05.decMsgKeySide = "side" ∧ Facts.C05.decSideIsFlipped = true ∧ Facts.C05.decryptSideFlips = true ∧
-    Facts.C05.decKeysSide = "c.encryptSide.DecryptSide()" :=
-  ⟨rfl, rfl, rfl, rfl, rfl, rfl, rfl⟩
+    Facts.C05.decKeysSide = "c.encryptSide.DecryptSide()" ∧
+    Facts.C05.msgDecodeExactSize = true ∧ Facts.C05.dataDecodeExactSize = true :=
+  ⟨rfl, rfl, rfl, rfl, rfl, rfl, rfl, rfl, rfl⟩
 
 /-- Non-vacuity of `MacDiffers`: with the toy primitives a reflected frame does satisfy it. -/
 example : MacDiffers Prims.toy .client ((List.range 256).map UInt8.ofNat)
